@@ -112,7 +112,9 @@ def jobs(tier):
     js = []
     if tier == "quick":
         grid = [(2, 1, 1, -1), (2, 2, 1, -1), (3, 1, 1, -1), (3, 2, 1, -1), (3, 1, 2, -1), (3, 2, 2, 0b010), (4, 2, 1, 0b0110),
-                (2, 1, 1, -2), (3, 2, 1, ~0b101), (3, 1, 1, 0)]
+                (2, 1, 1, -2), (3, 2, 1, ~0b101), (3, 1, 1, 0),
+                # more ways than identifiers: the surplus ways are never ready
+                (1, 2, 1, -1), (2, 3, 1, -1), (1, 1, 2, -1)]
         for e, a, f, init in grid:
             js.append(E1("checks.c25", "PEAllocH", {"entries": e, "alloc_ways": a, "free_ways": f, "init": init,
                                                     "all_replace": e <= 3}))
@@ -121,7 +123,7 @@ def jobs(tier):
             for a in (1, 2, 3):
                 for f in (1, 2):
                     for init in (-1, 0b0110, 0, -2, ~0b0101):
-                        if a <= e and f <= e:
+                        if (a <= e and f <= e) or (init == -1 and e <= 2):   # incl. more ways than identifiers
                             js.append(E1("checks.c25", "PEAllocH", {"entries": e, "alloc_ways": a, "free_ways": f,
                                                                     "init": init, "peek_always": e >= 4}))
         js.append(E1("checks.c25", "PEAllocH", {"entries": 5, "alloc_ways": 2, "free_ways": 2, "init": -1, "all_replace": False}))
